@@ -4,7 +4,7 @@
 //   free <seed> <N> <T>       real threads with seeded random yields before every mutex / condition-variable operation;
 //                             output `ok ctr>=T exec=all1` or a description of what went wrong
 // The scheduler state is reset for every op line; after a run that ends in DEADLOCK (threads parked forever) the process
-// re-executes itself and continues with the next line; a line that hangs for 60 s ends the process with `TIMEOUT`.
+// re-executes itself and continues with the next line; a line that hangs for 20 s ends the process with `TIMEOUT`.
 #include <atomic>
 #include <chrono>
 #include <condition_variable>
@@ -187,7 +187,7 @@ int main(int argc, char** argv) {
   signal(SIGALRM, on_alarm);
   std::string line;
   while (read_line(&line)) {
-    alarm(60);
+    alarm(20);
     std::string out = handle(line);
     alarm(0);
     fputs(out.c_str(), stdout);
